@@ -37,6 +37,8 @@ pub fn alphabet() -> Vec<(String, Sett)> {
         ("*--#\n+--+\n|  |\n+--+".to_string(), d.clone()),
         // same byte length as member 2, different content (conversions are made from one refilled buffer)
         (".--.\n|  |\n'--'".to_string(), b.clone()),
+        // a legend that defines a class twice among other classes (anything that collapses duplicates through a map)
+        ("+---+\n|{a}|\n+---+\n# Legend:\na = {fill:red}\nb = {stroke:blue}\na = {fill:blue}\nc = {stroke:red}\nd = {fill:green}".to_string(), d.clone()),
     ]
 }
 
@@ -234,7 +236,7 @@ impl Prop for C07 {
         "C07"
     }
     fn rule(&self) -> &'static str {
-        "(a) histories: every sequence of up to 3 (thorough 4) conversions over a 15-member alphabet chosen to collide on the lazily built tables (two members have the same byte length; every conversion is made from one refilled input buffer, so equal-length inputs share their address), each sequence in its own fresh process with the real once_cell tables, every output compared byte for byte \
+        "(a) histories: every sequence of up to 3 (thorough 4) conversions over a 16-member alphabet chosen to collide on the lazily built tables (two members have the same byte length; every conversion is made from one refilled input buffer, so equal-length inputs share their address), each sequence in its own fresh process with the real once_cell tables, every output compared byte for byte \
          with the same conversion alone in a fresh process; (b) orders/processes: a corpus of ~15 000 inputs (thorough ~117 000: all 2-character neighbourhoods) is converted by 16 fresh processes, each in a different order (identity, reverse, 14 stride permutations: every ordered pair of inputs occurs in both relative orders), \
          and every output hash compared with this process's own result (different process = different hash seeds; also repeated 4 times in-process); (c) hash-order seam: for all 3x3 grids with <=3 (thorough 4) cells over 6 characters ALL n! iteration orders of the property map are forced, \
          for larger drawings a structured family of orders, also with the tables rebuilt under the forced order; (d) schedules: 2-3 threads converting from the uninitialised table state under an owned scheduler, all interleavings of the instrumented points with at most 2 preemptions (thorough: 3 for two threads), \
